@@ -44,8 +44,15 @@ func genC03(seed uint64, tier string) *world.Scenario {
 			f.MinPwm, f.MaxPwm = world.IntP(lo), world.IntP(r.Range(lo+1, 255))
 		}
 		if !(withInit && kind == "hwmon") {
-			im := identityMap()
-			f.PwmMap = &im
+			if r.Bool(0.6) {
+				// configured map: fan2go does not touch the fan before its first cycle;
+				// otherwise the PWM sweep puts it into manual mode during start-up
+				im := identityMap()
+				f.PwmMap = &im
+			} else {
+				f.Driver.Quant, f.Driver.K = "mult", kernel.Pick(r, 16, 51)
+				f.Driver.InitPwm = world.Quantise(&f.Driver, f.Driver.InitPwm)
+			}
 			if kind == "hwmon" {
 				preseedRpmCurve(sc, f.ID, linearRpmCurve(f.Plant.StartThr, 255, f.Plant.MaxRpm))
 			}
@@ -195,6 +202,7 @@ func judgeStop(res *check.Result, sc *world.Scenario, co *childOut, prop string)
 			pathFan["scripts/"+f.ID+"_setpwm.sh"] = [2]string{f.ID, "setpwm"}
 		}
 	}
+	started := map[string]bool{} // the fan's controller reached its start-up wait
 	signals, delivered := 0, 0
 	signalPhase := ""
 	for _, ev := range co.Events {
@@ -202,6 +210,14 @@ func judgeStop(res *check.Result, sc *world.Scenario, co *childOut, prop string)
 			signals++
 			delivered += ev.Val
 			continue
+		}
+		if ev.Kind == "read" && ev.Flags&kernel.FRunStart != 0 {
+			if fr, ok := pathFan[rel(ev.Site)]; ok {
+				started[fr[0]] = true
+			}
+		}
+		if ev.Kind == "yield" && (ev.Site == "ctl.startup" || ev.Site == "ctl.delay" || ev.Site == "ctl.tick") {
+			started[ev.ID] = true
 		}
 		var fr [2]string
 		var ok bool
@@ -278,9 +294,14 @@ func judgeStop(res *check.Result, sc *world.Scenario, co *childOut, prop string)
 	for i := range sc.Fans {
 		f := &sc.Fans[i]
 		fi := info[f.ID]
-		if !fi.touched {
+		if !fi.touched && !started[f.ID] {
 			res.Probe("fan-untouched")
 			continue
+		}
+		if !fi.touched {
+			// the controller had started but never wrote: the predicate still has to hold
+			// (a fan found in manual mode at reduced speed must end at full speed)
+			res.Probe("fan-started-but-never-written")
 		}
 		if co.End == "horizon" || co.End == "maxevents" {
 			continue
